@@ -963,6 +963,8 @@ def _dict_method(I, d, name):
         return BoundBuiltin(lambda k, default=None: d.get(canon_key(d.keys(), k), default))
     if name == "copy":
         return BoundBuiltin(lambda: dict(d))
+    if name == "clear":
+        return BoundBuiltin(lambda: d.clear())
     if name == "pop":
         def pop(k, *default):
             hk = hashable(k)
